@@ -44,7 +44,10 @@ def walk_stmts(stmts, fe, fs=None):
         elif k == 'block':
             walk_stmts(s[1], fe, fs)
         elif k == 'if':
-            walk_expr(s[1], fe, ('cond', 'neg'))
+            # `if (c) break;` / `if (c) continue;` without else branch straight to the loop's label when c HOLDS:
+            # the condition is not negated there
+            bare_jump = s[3] is None and s[2] in (('break',), ('continue',))
+            walk_expr(s[1], fe, ('cond', 'pos' if bare_jump else 'neg'))
             walk_stmts([s[2]], fe, fs)
             if s[3] is not None:
                 walk_stmts([s[3]], fe, fs)
@@ -57,7 +60,8 @@ def walk_stmts(stmts, fe, fs=None):
         elif k == 'for':
             for x in s[1:4]:
                 if x is not None:
-                    walk_expr(x, fe, ('cond', 'neg') if x is s[2] else None)
+                    # the condition of a for loop is tested negated before the first pass and as it is after each update
+                    walk_expr(x, fe, ('cond', 'both') if x is s[2] else None)
             walk_stmts([s[4]], fe, fs)
         elif k == 'switch':
             walk_expr(s[1], fe)
@@ -160,8 +164,12 @@ def features(prog):
                 # a do-while condition is not; elsewhere (&&, ||, !, ?:, value) it depends
                 op = e[1] if e[3][0] == 'num' else {'<': '>', '>': '<', '<=': '>=', '>=': '<='}[e[1]]
                 if parent is not None and parent[0] == 'cond' and len(parent) > 1:
-                    eff = {'<': '>=', '>=': '<', '>': '<=', '<=': '>'}[op] if parent[1] == 'neg' else op
-                    if eff in ('<', '>', '>='):
+                    effs = []
+                    if parent[1] in ('neg', 'both'):
+                        effs.append({'<': '>=', '>=': '<', '>': '<=', '<=': '>'}[op])
+                    if parent[1] in ('pos', 'both'):
+                        effs.append(op)
+                    if any(eff in ('<', '>', '>=') for eff in effs):
                         feats.add('cmp_order_zero')
                 else:
                     feats.add('cmp_order_zero')
